@@ -320,7 +320,7 @@ def gen_docs(rng, tier):
                [gen_doc(rng, tier, comp=comp, size=rng.randrange(3 * READ, 6 * READ), flavour='blob')
                 for comp in (None, 'gzip', 'zstd')]
     q = tier == 'quick'
-    out = [gen_doc(rng, tier) for _ in range(60 if q else 600)]
+    out = [gen_doc(rng, tier) for _ in range(40 if q else 600)]
     # big documents: the file ON DISK spans several 64 KiB read chunks for every compression setting
     for comp in (None, 'gzip', 'zstd'):
         for writer in ('dump', 'harness'):
@@ -573,12 +573,11 @@ def run_impl(case):
         return obs
     if is_doc:
         # the text items that entered load, by key: '' -> [], the k-th distinct non-empty text -> [k]
-        ids, keys, fresh, tbl = {canon(objs[0]): 1}, {}, [2], []
+        ids, keys, fresh, tbl = {(want[0] if case['skip'] == 0 else canon(objs[0])): 1}, {}, [2], []
 
-        def doc_ident(v):
-            if v is None:
+        def doc_ident(k):          # k: canonical form of a loaded value
+            if k == canon(None):
                 return 0
-            k = canon(v)
             if k not in ids:
                 ids[k] = fresh[0]
                 fresh[0] += 1
@@ -591,12 +590,12 @@ def run_impl(case):
             if t not in keys:
                 keys[t] = len(keys) + 1
                 try:
-                    tbl.append([keys[t], doc_ident(orjson.loads(t))])
+                    tbl.append([keys[t], doc_ident(canon(orjson.loads(t)))])
                 except Exception:
                     tbl.append([keys[t], None])
             doc_chunks.append([keys[t]])
         obs.update({'text_items': [len(t) for t in loads_in], 'doc_chunks': doc_chunks, 'tbl': tbl,
-                    'item_ids': [doc_ident(o) for o in items], 'bufsize': io.DEFAULT_BUFFER_SIZE,
+                    'item_ids': [doc_ident(k) for k in got], 'bufsize': io.DEFAULT_BUFFER_SIZE,
                     'unframe_chunks': len(chunks)})
         return obs
     # small / hand: everything goes to Coq in full
@@ -799,15 +798,30 @@ CLAIM = {
             '(small files) or by its length abstraction (proved equal to Framing.Line on lengths) on big files; the '
             'sizes of the chunks file.read delivers recomputed by the batch cutting (buffered file) or by raw_sizes from '
             'the caps of the successive read calls (raw stream; proved equal to the lengths of raw_read); '
-            'delivered objects recomputed by the load model with orjson answers as a table.',
+            'delivered objects recomputed by the load model with orjson answers as a table. '
+            'lines=False (a file that holds ONE document): proved (C19_load_doc_from_file_dump_one_partial, '
+            'C19_load_doc_raw_stream_dump_one_partial, C19_file_read_all_concat / _sizes, closed under the global context): '
+            'file.read(size=-1) hands the whole file over in one chunk (over a raw stream: readall joins the short reads), '
+            'and load_from_file(lines=False)(dump_to_file([o])) delivers exactly [o] and completes, GIVEN three premises '
+            'about the libraries: H_loads_dumps_nl (orjson parses dumps o followed by the newline), H_text_codec_whole and '
+            'H_compression_whole (fed the whole file in ONE non-empty item, the stage delivers the whole text / byte string '
+            'in ONE non-empty item, plus possibly empty flush items; proved trivially for compression=None). Tested, not '
+            'proved, for the libraries: the doc family - one document per file, written by dump_to_file or by the harness '
+            '(json.dumps compact / indented over many lines, with and without a trailing newline; gzip module / zstandard), '
+            'from 2 bytes to several 64 KiB read chunks ON DISK for every compression setting (random base64 / hex / float '
+            'payloads so that the gzip / zstd file exceeds 64 KiB as well; uncompressed files of exactly k x 64 KiB - 1, + 0, '
+            '+ 1 bytes), builtin file, custom open_obj and short-read raw streams; the oracle demands exactly [the object]; '
+            'the correspondence recomputes the chunk sizes of file.read(size=-1) (doc_read_sizes; readall over the '
+            'recorded caps) and the delivered objects from the text items that entered json.load (tap).',
     'note': 'Trusted: Coq kernel+VM; hand-written model of json.py (tied by correspondence only); orjson, CPython codecs, '
             'zlib, zstandard, gzip module (not modelled; hypotheses of the theorem, tested not proved); the taps '
             '(monkey-patching in the harness process); items delivered before a stage error are not modelled; '
-            'lines=False mode is outside the property; the raw stream of the harness returns short counts on the read '
+            'lines=False is covered only for a file that holds exactly one document with skip=0 (a JSON-lines file '
+            'read with lines=False, skip > 0 and empty files are outside what is claimed); the raw stream of the harness returns short counts on the read '
             'side only (file.write ignores the count returned by write(), so a raw WRITER with short writes is outside '
             'what is tested and modelled).',
     'technique': 'Coq proof (composition of stage laws as Section hypotheses; reuse of the line-framing round-trip '
                  'theorem and of the batch-cutting theorem for file.read; induction on the read calls for raw streams) + '
                  'vm_compute correspondence via taps + differential testing of the libraries (short-read raw streams, '
-                 'highly compressible multi-MiB payloads)',
+                 'highly compressible multi-MiB payloads, single documents larger than the read chunk with lines=False)',
 }
